@@ -40,6 +40,7 @@ func c18Decl(layout int, subOpt bool, defaultOpts bool) *decl.Decl {
 		{Field: "Force", Short: "F", Long: "force", Type: decl.TBool},
 		{Field: "From", Long: "from", Type: decl.TWords2},
 		{Field: "Verbose", Long: "verbatim", Type: decl.TBool},
+		{Field: "Num2", Long: "num", Type: decl.TInt}, // same long name as the parser's -n/--num: shadows it, -n stays the parser's
 	}}
 	pa := func(n string, t *decl.Type) *decl.PosArg { return &decl.PosArg{Field: n, Type: t} }
 	switch layout {
@@ -56,6 +57,8 @@ func c18Decl(layout int, subOpt bool, defaultOpts bool) *decl.Decl {
 	rm := &decl.Cmd{Field: "Rm", Name: "rm", Opts: []*decl.Opt{{Field: "Recursive", Short: "r", Long: "recursive", Type: decl.TBool}}}
 	hid := &decl.Cmd{Field: "Hid", Name: "hid", Hidden: true}
 	top.Cmds = []*decl.Cmd{add, adx, rm, hid}
+	// a group of the parser; with the API build it is added after the commands (and after some use of the parser)
+	top.Groups = []*decl.Group{{Field: "LateG", Name: "Late Group", Opts: []*decl.Opt{{Field: "Late", Long: "late-opt", Type: decl.TBool}}}}
 	d := &decl.Decl{Top: top, Options: flags.PassDoubleDash}
 	if defaultOpts {
 		d.Options = flags.HelpFlag | flags.PassDoubleDash
@@ -104,12 +107,16 @@ func init() {
 		layout := c.Choose(5)
 		subOpt := c.Bool()
 		defOpts := c.Bool()
+		lateAPI := c.Deviate(2) == 1 // built through the API; the parser's group is added after the commands and after a first completion and parse
 		maxDepth := 3
 		if !c.Thorough && defOpts {
 			maxDepth = 2 // quick: the HelpFlag variants only differ by the built-in help options
 		}
 		if c.Thorough && layout == 2 && !defOpts {
 			maxDepth = 4
+		}
+		if lateAPI && !c.Thorough && maxDepth > 2 {
+			maxDepth = 2
 		}
 		n := c.Choose(maxDepth + 1)
 		var prefix []string
@@ -119,7 +126,7 @@ func init() {
 		last := c18Last[c.Choose(len(c18Last))]
 		d := c18Decl(layout, subOpt, defOpts)
 		c.Describe(func() interface{} {
-			return map[string]interface{}{"add_positionals": layout, "subcommands_optional": subOpt, "help_flag": defOpts, "typed_words": prefix, "partial_last_word": last}
+			return map[string]interface{}{"add_positionals": layout, "subcommands_optional": subOpt, "help_flag": defOpts, "api_build_with_group_added_after_use": lateAPI, "typed_words": prefix, "partial_last_word": last}
 		})
 		cfg := &ref.Config{D: d, Prefix: true}
 		res := ref.Run(cfg, prefix)
@@ -129,7 +136,22 @@ func init() {
 		key := fmt.Sprint(layout, subOpt, defOpts)
 		recordStates(c, key, res, nil)
 		// run the real completer
-		b := d.BuildTags()
+		build := func() *decl.Built {
+			if !lateAPI {
+				return d.BuildTags()
+			}
+			return d.BuildAPIWith(func(hb *decl.Built) {
+				// use the half-built parser: one completion inside add, one parse selecting add deep
+				hb.Parser.CompletionHandler = func([]flags.Completion) {}
+				os.Setenv("GO_FLAGS_COMPLETION", "1")
+				hb.Parser.ParseArgs([]string{"add", "--"})
+				os.Unsetenv("GO_FLAGS_COMPLETION")
+				hb.Parser.ParseArgs([]string{"add", "deep"})
+				hb.Parser.ParseArgs([]string{"rm"})
+				rezero(hb)
+			})
+		}
+		b := build()
 		if b.Err != nil {
 			c.Fail("setup-error", b.Err.Error())
 			return
@@ -185,9 +207,13 @@ func init() {
 			}
 			if includeShortOnly {
 				for name, o := range res.Short {
-					if o.ID == "<help>" || o.Long != "" || o.IsHidden() {
+					if o.ID == "<help>" || o.IsHidden() {
 						continue
 					}
+					if o.Long != "" && res.Long[o.LongNS] == o {
+						continue // already offered under its long name
+					}
+					// short-only options, and options whose long name is shadowed by an inner command's option
 					out = append(out, "-"+name)
 				}
 			}
@@ -206,6 +232,16 @@ func init() {
 				if words, ok := completerWords(res.Queue[0].Type); ok && !strings.HasPrefix(last, "-") {
 					want, asserted = wordsMatching(words, last), true
 				}
+			} else if !strings.HasPrefix(last, "-") {
+				// nothing pending: a plain word completes to the subcommands of the context the parser is in
+				// (words after the terminator never select commands)
+				asserted = true
+				for _, sc := range res.Cur.Cmds {
+					if !sc.Hidden && strings.HasPrefix(sc.Name, last) {
+						want = append(want, sc.Name)
+					}
+				}
+				sort.Strings(want)
 			}
 		case last == "-":
 			class = "bare-dash"
@@ -274,7 +310,7 @@ func init() {
 			if !isOpt && !isCmd {
 				continue
 			}
-			b2 := d.BuildTags()
+			b2 := build()
 			argv := append(append([]string{}, prefix...), it)
 			rr := runParser(b2, &ref.Config{D: d}, argv, runOpts{})
 			if rr.Panic != nil {
@@ -291,6 +327,9 @@ func init() {
 		{
 			b3 := d.BuildTags()
 			runParser(b3, &ref.Config{D: d}, prefix, runOpts{})
+			if lateAPI {
+				c.Hit("late-built")
+			}
 			if res.PendingOpt == nil && !sameStrings(b3.ActiveChain(), chainNames(res.Chain)) {
 				c.Fail("parser-context-differs", map[string]interface{}{"parser": b3.ActiveChain(), "model": chainNames(res.Chain)})
 			}
@@ -302,7 +341,7 @@ func init() {
 		ShardDepth: 5,
 		Body:       body,
 		Rule: "declaration with Completer-typed options (short+long, long-only, a multi-byte short name, two different word lists), an optional-argument option, hidden long and hidden short-only options, hidden command, short-only option, commands sharing a prefix (add, adx), alias, sub-subcommand; " +
-			"positionals of add in 5 layouts (none, [Words], [Words,int], [int,Words], [Words, ...Words2]) x subcommands-optional on the parser yes/no x HelpFlag yes/no; every valid prefix (the CLM in prefix mode accepts it) of <= 3 units (quick: <= 2 on the HelpFlag variants; thorough: <= 4 on the [Words,int] layout without HelpFlag) over 26 units " +
+			"positionals of add in 5 layouts (none, [Words], [Words,int], [int,Words], [Words, ...Words2]) x subcommands-optional on the parser yes/no x HelpFlag yes/no x {struct tags, API build where a group of the parser is added after the commands and after a first completion and parse on the half-built parser}; every valid prefix (the CLM in prefix mode accepts it) of <= 3 units (quick: <= 2 on the HelpFlag variants; thorough: <= 4 on the [Words,int] layout without HelpFlag) over 26 units " +
 			"(flags, separate / attached / '=' arguments, pending option, cluster ending in a pending option, optional-argument option, command words and alias, plain words, numbers, terminator) x 33 partial last words; " +
 			"oracle from the CLM context after the prefix: (a) '-' / '--p' => exactly the non-hidden options in scope with that prefix, (b) value position of a Completer-typed option or positional => exactly its words re-attached to the spelling, " +
 			"(c) otherwise the non-hidden subcommands with that prefix, (d) sorted, (e) every offered option/command re-parsed by the real parser at that position is not unknown, (f) the real parser's Active chain on the typed words equals the model's",
